@@ -7,6 +7,7 @@ import (
 	"fmt"
 	"go/ast"
 	"go/parser"
+	"go/printer"
 	"go/token"
 	"go/types"
 	"os"
@@ -216,6 +217,11 @@ func locate(fset *token.FileSet, tf *token.File, f *ast.File, src []byte, checke
 				if squash(txt) == squash(m[q.orig]) {
 					best = n
 					return false
+				}
+				// the checkers quote the node as go/printer prints it (redundant nested parentheses are dropped)
+				var pb bytes.Buffer
+				if printer.Fprint(&pb, fset, n) == nil && squash(pb.String()) == squash(m[q.orig]) && best == nil {
+					best = n
 				}
 				return true
 			}
